@@ -171,12 +171,13 @@ XSock *x_find_peer(XSock *x) {
 }
 
 static bool is_refusal(int e) { return e == EAGAIN || e == EMSGSIZE || e == EINVAL || e == EINTR; }
+static bool judged(const XSock *x) { return !x->ignore_delivery && !x->dying; }
 
 static void note_terminal(XSock *x, const char *call, int e) {
     if (is_refusal(e)) return;
     if (x->term_errno == 0 && !x->saw_eof) { x->term_errno = e; return; }
     // C06: on the TCP-based transports every later send/receive/finish reports the same errno
-    if (x->is_tcp_based && x->term_errno != 0 && e != x->term_errno && !x->ignore_delivery)
+    if (x->is_tcp_based && x->term_errno != 0 && e != x->term_errno && judged(x))
         G->violation("C06.sticky_errno", "%s: %s reported %s after the connection had failed with %s", x->label.c_str(), call, strerror(e), strerror(x->term_errno));
 }
 
@@ -190,6 +191,8 @@ int x_send(XSock *x, const void *buf, size_t len) {
         if (x->ghost.size() <= len && memcmp(x->ghost.data(), buf, x->ghost.size()) == 0) x->inflight_taken = x->ghost.size();
         else x->ghost.clear();
     }
+    int64_t before[8];
+    bool have_before = XO.check_refusal && judged(x) && x_read_counters(x, before);
     {
         ApiScope a("xcm_send", x, x->nonblocking);
         errno = 0;
@@ -197,19 +200,31 @@ int x_send(XSock *x, const void *buf, size_t len) {
         e = errno;
     }
     x->send_inflight = false;
+    if (have_before && rc < 0 && is_refusal(e)) {
+        int64_t after[8];
+        if (x_read_counters(x, after)) {
+            G->count("probe.refused_send_checked");
+            // from_app and to_app must be untouched; to_lower may only catch up with what had been accepted before
+            if (after[1] != before[1] || after[5] != before[5] || after[0] != before[0] || after[4] != before[4] ||
+                after[2] > before[1] || (!x->bytestream && after[6] > before[5]))
+                G->violation("C03.refused_send_changed_state", "%s: xcm_send(%zu bytes) was refused with %s but the counters changed: from_app %lld/%lld -> %lld/%lld bytes/msgs, to_lower %lld/%lld -> %lld/%lld, to_app %lld -> %lld",
+                             x->label.c_str(), len, strerror(e), (long long)before[1], (long long)before[5], (long long)after[1], (long long)after[5],
+                             (long long)before[2], (long long)before[6], (long long)after[2], (long long)after[6], (long long)before[0], (long long)after[0]);
+        }
+    }
     size_t taken = x->inflight_taken;
     x->inflight_taken = 0;
     G->logf("xcm_send(%s, %zu) = %d%s%s", x->label.c_str(), len, rc, rc < 0 ? " " : "", rc < 0 ? strerror(e) : "");
     cur()->ops_since_poll++;
     if (!(rc < 0 && e == EAGAIN)) G->kmut++;   // API-level progress (or a terminal report) counts as a state change
     if (rc >= 0) {
-        if (x->terminal() && !x->ignore_delivery && len > 0)
+        if (x->terminal() && judged(x) && len > 0)
             G->violation("C06.send_after_terminal", "%s: xcm_send succeeded after %s", x->label.c_str(), x->saw_eof ? "a receive had returned 0" : strerror(x->term_errno));
         if (x->bytestream) {
             if ((size_t)rc > len || (len > 0 && rc == 0))
                 G->violation("C02.rc_range", "%s: byte-stream xcm_send(len %zu) returned %d", x->label.c_str(), len, rc);
             size_t n = std::min<size_t>((size_t)rc, len);
-            if (taken > n && !x->ignore_delivery && x->ghost.size() <= n)
+            if (taken > n && judged(x) && x->ghost.size() <= n)
                 G->violation("C02.refused_bytes_delivered", "%s: xcm_send accepted %zu of %zu offered bytes but the peer received %zu bytes of that offer", x->label.c_str(), n, len, taken);
             size_t skip = taken;
             if (n > skip) x->out_stream.append((const char *)buf + skip, n - skip);
@@ -220,21 +235,28 @@ int x_send(XSock *x, const void *buf, size_t len) {
         } else {
             if (rc != 0) G->violation("C01.send_rc", "%s: messaging xcm_send returned %d", x->label.c_str(), rc);
             if (!taken) x->out_fifo.emplace_back((const char *)buf, len);   // else: already received by the peer while the call was returning
+            x->sent_lens.push_back(len);
             x->sent_ok++;
             x->led_from_app_msgs++;
             x->led_from_app_bytes += (int64_t)len;
         }
         x->finish_ok_since_send = false;
     } else {
-        if (taken > x->ghost.size() && !x->ignore_delivery && e != ECONNRESET && e != EPIPE && e != ETIMEDOUT)
+        if (taken > x->ghost.size() && judged(x) && e != ECONNRESET && e != EPIPE && e != ETIMEDOUT)
             G->violation(x->bytestream ? "C02.refused_bytes_delivered" : "C03.failed_send_delivered", "%s: xcm_send(%zu bytes) failed with %s but the peer received %s", x->label.c_str(), len, strerror(e),
                          x->bytestream ? strf("%zu bytes of it", taken).c_str() : "the message");
+        if (x->bytestream && !is_refusal(e) && len > taken && x->failed_offer.empty() && !x->conn_failed_send) {
+            // the connection failed during the call: bytes the lower layer had already taken may still arrive
+            // (the receiver then holds a prefix of what was offered - there is no "next call" to be misled)
+            x->failed_offer.assign((const char *)buf + taken, len - taken);
+        }
         if (x->bytestream && e == EAGAIN) {
             x->refused_offer.assign((const char *)buf, len);
             x->ghost.assign((const char *)buf, std::min(taken, len));
         }
+        if (!is_refusal(e)) x->conn_failed_send = true;
         x->last_send_errno = e;
-        if (x->saw_eof && e != EPIPE && !is_refusal(e) && !x->ignore_delivery)
+        if (x->saw_eof && e != EPIPE && !is_refusal(e) && judged(x))
             G->violation("C06.send_after_close", "%s: xcm_send after the close was seen failed with %s, not EPIPE", x->label.c_str(), strerror(e));
         if (e == EPIPE) x->saw_epipe = true;
         else note_terminal(x, "xcm_send", e);
@@ -258,7 +280,7 @@ int x_receive(XSock *x, void *buf, size_t cap) {
     x->last_recv_eagain = rc < 0 && e == EAGAIN;
     if (x->last_recv_eagain) x->kmut_at_last_recv_eagain = G->kmut;
     if (rc > 0) {
-        if (x->terminal() && !x->ignore_delivery)
+        if (x->terminal() && judged(x))
             G->violation("C06.recv_after_terminal", "%s: xcm_receive delivered %d bytes after %s", x->label.c_str(), rc, x->saw_eof ? "having returned 0" : strerror(x->term_errno));
         if ((size_t)rc > cap)
             G->violation(x->bytestream ? "C02.capacity" : "C01.capacity", "%s: xcm_receive returned %d > capacity %zu", x->label.c_str(), rc, cap);
@@ -282,6 +304,17 @@ int x_receive(XSock *x, void *buf, size_t cap) {
                     avail.append(p->refused_offer, p->ghost.size(), extra);
                     from_refused = extra;
                 }
+                size_t from_failed = 0;
+                if (avail.size() < n && !p->send_inflight && !from_refused && !p->failed_offer.empty()) {
+                    size_t extra = std::min(n - avail.size(), p->failed_offer.size());
+                    avail.append(p->failed_offer, 0, extra);
+                    from_failed = extra;
+                }
+                if (avail.size() >= n && memcmp(avail.data(), buf, n) == 0 && from_failed) {
+                    G->count("probe.failed_call_prefix_delivered");
+                    p->out_stream.clear();
+                    p->failed_offer.erase(0, from_failed);
+                } else
                 if (avail.size() >= n && memcmp(avail.data(), buf, n) == 0 && from_inflight) {
                     p->out_stream.clear();
                     p->inflight_taken += from_inflight;
@@ -321,11 +354,11 @@ int x_receive(XSock *x, void *buf, size_t cap) {
             }
         }
     } else if (rc == 0) {
-        if (x->term_errno != 0 && x->is_tcp_based && !x->ignore_delivery && cap > 0)
+        if (x->term_errno != 0 && x->is_tcp_based && judged(x) && cap > 0)
             G->violation("C06.sticky_errno", "%s: xcm_receive returned 0 after the connection had failed with %s", x->label.c_str(), strerror(x->term_errno));
         if (cap > 0 || !x->bytestream) x->saw_eof = true;
         if (!x->peer) if (XSock *pp = x_find_peer(x)) x_pair(x, pp);
-        if (x->peer && x->peer->closed_after_flush && !x->ignore_delivery && !x->peer->ignore_delivery) {
+        if (x->peer && x->peer->closed_after_flush && judged(x) && judged(x->peer)) {
             // Did this end of the kernel connection itself break (reset / EPIPE after writing into a closed
             // peer)? Then losing the tail is a statement about close handling (C06); on a healthy
             // connection it is a delivery failure (C01/C02).
@@ -340,7 +373,7 @@ int x_receive(XSock *x, void *buf, size_t cap) {
             }
         }
     } else {
-        if (x->saw_eof && !is_refusal(e) && !x->ignore_delivery)
+        if (x->saw_eof && !is_refusal(e) && judged(x))
             G->violation("C06.eof_not_sticky", "%s: xcm_receive returned %s after having returned 0", x->label.c_str(), strerror(e));
         note_terminal(x, "xcm_receive", e);
     }
@@ -363,7 +396,7 @@ int x_finish(XSock *x) {
     if (rc == 0) x->finish_ok_since_send = true;
     if (rc < 0 && !x->is_server && e == EPIPE) x->saw_epipe = true;
     if (rc < 0 && !x->is_server && e != EPIPE) note_terminal(x, "xcm_finish", e);
-    if (rc == 0 && x->term_errno != 0 && x->is_tcp_based && !x->ignore_delivery && !x->is_server)
+    if (rc == 0 && x->term_errno != 0 && x->is_tcp_based && judged(x) && !x->is_server)
         G->violation("C06.sticky_errno", "%s: xcm_finish returned 0 after the connection had failed with %s", x->label.c_str(), strerror(x->term_errno));
     if (XO.check_counters && !x->is_server) x_check_counters(x, "xcm_finish");
     errno = e;
@@ -430,21 +463,36 @@ int x_attr_set(XSock *x, const char *name, enum xcm_attr_type type, const void *
 
 bool x_wait(XSock *x) {
     int fd = x_fd(x);
-    struct pollfd p = {fd, POLLIN, 0};
-    int rc = k::poll(&p, 1, -1);
-    return rc > 0;
+    for (;;) {
+        struct pollfd p = {fd, POLLIN, 0};
+        int rc = k::poll(&p, 1, -1);
+        if (rc < 0 && errno == EINTR && !G->stopping) continue;   // injected signal: the application's loop just polls again
+        return rc > 0;
+    }
 }
 
 static const char *cnt_names[8] = {"xcm.to_app_bytes", "xcm.from_app_bytes", "xcm.to_lower_bytes", "xcm.from_lower_bytes",
                                    "xcm.to_app_msgs", "xcm.from_app_msgs", "xcm.to_lower_msgs", "xcm.from_lower_msgs"};
 
+struct CntCb { int64_t *out; int seen; };
+static void cnt_cb(const char *name, enum xcm_attr_type type, void *value, size_t len, void *data) {
+    CntCb *c = (CntCb *)data;
+    if (type != xcm_attr_type_int64 || len != sizeof(int64_t) || strncmp(name, "xcm.", 4) != 0) return;
+    for (int i = 0; i < 8; i++)
+        if (!strcmp(name, cnt_names[i])) { memcpy(&c->out[i], value, sizeof(int64_t)); c->seen |= 1 << i; }
+}
+
 bool x_read_counters(XSock *x, int64_t out[8]) {
     if (!x->s || x->is_server) return false;
     int n = x->bytestream ? 4 : 8;
     for (int i = 0; i < 8; i++) out[i] = 0;
-    for (int i = 0; i < n; i++)
-        if (x_attr_get_int64(x, cnt_names[i], &out[i]) < 0) return false;
-    return true;
+    // one attribute-tree construction for all counters (a tree is built per attribute call)
+    CntCb c{out, 0};
+    {
+        ApiScope a("xcm_attr_get_all", x, x->nonblocking);
+        xcm_attr_get_all(x->s, cnt_cb, &c);
+    }
+    return (c.seen & ((1 << n) - 1)) == (1 << n) - 1;
 }
 
 void x_check_counters(XSock *x, const char *after) {
@@ -460,7 +508,8 @@ void x_check_counters(XSock *x, const char *after) {
             if (c[i] < x->last_cnt[i]) G->violation("C17.monotone", "%s: %s decreased from %lld to %lld after %s", x->label.c_str(), cnt_names[i], (long long)x->last_cnt[i], (long long)c[i], after);
     memcpy(x->last_cnt, c, sizeof(c));
     x->cnt_valid = true;
-    if (x->ignore_delivery) return;
+    if (!judged(x)) return;
+    if (x->conn_failed_send) return;   // a send that failed together with the connection may or may not have been counted as accepted
     if (c[1] != x->led_from_app_bytes) G->violation("C17.from_app_bytes", "%s: xcm.from_app_bytes=%lld but the application had %lld bytes accepted (after %s)", x->label.c_str(), (long long)c[1], (long long)x->led_from_app_bytes, after);
     if (c[0] != x->led_to_app_bytes) G->violation("C17.to_app_bytes", "%s: xcm.to_app_bytes=%lld but %lld bytes were really delivered to the application (after %s)", x->label.c_str(), (long long)c[0], (long long)x->led_to_app_bytes, after);
     if (!x->bytestream) {
